@@ -236,7 +236,14 @@ def parse_enums_from_source(paths):
                     vs.append(mm.group(1))
                     ENUM_PAYLOADS.setdefault(name, {})[mm.group(1)] = \
                         [x.strip() for x in mirparse.split_top(mm.group(2))] if mm.group(2) else []
-            out[name] = vs
+            if name in out and out[name] != vs:
+                # same enum name in another module / crate: keep both (resolved by variant name where used)
+                import os as _os
+                stem = _os.path.splitext(_os.path.basename(p))[0]
+                crate = p.split("/src/")[0].split("/")[-1]
+                out["%s@%s/%s" % (name, crate, stem)] = vs
+            else:
+                out[name] = vs
     return out
 
 
@@ -413,6 +420,9 @@ class Engine:
         if addr[0] == "H":
             return st.heap, addr[1], addr[2:]
         raise Unsupported("addr %r" % (addr,))
+
+    def enum_candidates(self, name):
+        return [k for k in self.enums if k == name or k.startswith(name + "@")]
 
     def variant_index(self, enum_name, vname):
         vs = self.enums.get(enum_name)
@@ -607,8 +617,10 @@ class Engine:
             return Opaque("strlit", t, {"lit": unescape(m.group(1))})
         # enum unit variant / named const
         m = re.fullmatch(r"(?:.*::)?([A-Za-z_][A-Za-z0-9_]*)::([A-Za-z_][A-Za-z0-9_]*)", t)
-        if m and m.group(1) in self.enums and m.group(2) in self.enums[m.group(1)]:
-            return EnumV(m.group(1), self.enums[m.group(1)].index(m.group(2)), {})
+        if m:
+            for key in self.enum_candidates(m.group(1)):
+                if m.group(2) in self.enums[key]:
+                    return EnumV(key, self.enums[key].index(m.group(2)), {})
         return Opaque("const", t, {})
 
     # ---- operands / rvalues
@@ -754,9 +766,11 @@ class Engine:
         # Path like  std::result::Result::<A, B>::Err  |  Option::<u8>::None | ErrorCode::InvalidNumber | Token::Bool
         p = strip_generics(path)
         parts = p.split("::")
-        if len(parts) >= 2 and parts[-2] in self.enums and parts[-1] in self.enums[parts[-2]]:
-            idx = self.enums[parts[-2]].index(parts[-1])
-            return EnumV(parts[-2], idx, {idx: list(args)})
+        if len(parts) >= 2:
+            for key in self.enum_candidates(parts[-2]):
+                if parts[-1] in self.enums[key]:
+                    idx = self.enums[key].index(parts[-1])
+                    return EnumV(key, idx, {idx: list(args)})
         # tuple struct / unit struct
         return Agg("struct", parts[-1], list(args))
 
@@ -1083,6 +1097,8 @@ class Engine:
                         eff(s2)
                     if ret_bb is None:
                         self._terminal("DIVERGE", s2)
+                    elif isinstance(v, tuple) and v and v[0] == "panic":
+                        self._terminal("PANIC", s2, info={"msg": v[1], "fn": fr.fn.name, "bb": fr.bb})
                     elif isinstance(v, tuple) and v and v[0] == "frame":
                         _, f, fargs, post = v
                         nf = Frame(f, f.name)
